@@ -177,17 +177,7 @@ def run(ck, prog, tier, load):
                     br_some += [tb for lab, tb in br[1] if lab == "Some"]
             ok = ok and bool(br_some) and b.must_pass(br_some, b.returns(), wk)[0]
         ck.ob("C07-b.wake-impl", b.npath, ok, b, wk[0] if wk else None, "%s takes Inner.%s and calls Waker::wake on the Some edge" % (name, fld))
-    # register / register_io store the context's waker
-    for name, fld in (("register", "task"), ("register_io", "io_task")):
-        b = inner[name]
-        ws = [(bb, e) for (bd, bb, s, e) in writes_of_field(prog, F + fld + "$", crates) if bd is b]
-        ok = any(is_agg(e, r"Option::Some$") and e_calls(e, r"Waker.*clone$|Clone>::clone$") and e_calls(e, r"Context::waker$") for bb, e in ws)
-        # the skip branch is only `will_wake`
-        if ok:
-            wbb = [bb for bb, e in ws][0]
-            gs = b.guards(wbb)
-            ok = all(e_calls(e, r"is_none_or$") for e, lab, a in gs) if gs else True
-        ck.ob("C07-d.register-impl", b.npath, ok, b, ws[0][0] if ws else None, "%s stores Some(cx.waker().clone()) into Inner.%s unless the stored waker will_wake the same task" % (name, fld))
+    register_impl(ck, prog, "C07-d")
     # PayloadSender forwards and Drop closes
     for m in ("set_error", "feed_eof", "feed_data"):
         b = prog.one(r"^actix_http::h1::payload::PayloadSender::%s$" % m)
@@ -281,3 +271,19 @@ def run(ck, prog, tier, load):
     ck.anchor("C07-d", n, 2, "writes of Inner.need_read")
     v = prog.consts.get("actix_http::h1::payload::MAX_BUFFER_SIZE", {}).get("int")
     ck.ob("C07-d.limit-const", "MAX_BUFFER_SIZE", isinstance(v, int) and 0 < v <= 1 << 20, None, None, "h1::payload::MAX_BUFFER_SIZE = %s" % v, nontrivial=False)
+
+
+def register_impl(ck, prog, P):
+    """Inner::register / register_io store the polling task's waker (replacing a waker of another task); shared by
+    C07 (the channel's wake-ups) and C04 (a Pending reader has arranged to be woken)"""
+    F = r"\.actix_http::h1::payload::Inner\."
+    for name, fld in (("register", "task"), ("register_io", "io_task")):
+        b = prog.one(r"^actix_http::h1::payload::Inner::%s$" % name)
+        ws = [(bb, e) for (bd, bb, s_, e) in writes_of_field(prog, F + fld + "$", ["actix_http"]) if bd is b]
+        ok = any(is_agg(e, r"Option::Some$") and e_calls(e, r"Waker.*clone$|Clone>::clone$") and e_calls(e, r"Context::waker$") for bb, e in ws)
+        # the skip branch is only `will_wake`
+        if ok:
+            wbb = [bb for bb, e in ws][0]
+            gs = b.guards(wbb)
+            ok = all(e_calls(e, r"is_none_or$") for e, lab, a in gs) if gs else True
+        ck.ob(P + ".register-impl", b.npath, ok, b, ws[0][0] if ws else None, "%s stores Some(cx.waker().clone()) into Inner.%s unless the stored waker will_wake the same task" % (name, fld))
